@@ -1,7 +1,7 @@
 (* Run.v — the operations of the correspondence check: one [run_case] entry point. *)
 From DltV.Model Require Import Bytes RustInt Utf8 Nom Dlt Parse Wire.
 From DltV.Spec Require Import WellFormed.
-From DltV.Model Require Import Stats.
+From DltV.Model Require Import Stats Reader Stream.
 Open Scope N_scope.
 
 Definition w_cres (x : option (list argument)) : list wtok :=
@@ -205,6 +205,33 @@ Definition op_stats (ts : list wtok) : list wtok :=
        ++ w_si (collect_messages all)
        ++ w_si (merge_mode mode (map collect_messages parts))).
 
+(* 40 READ / 41 ASYNC: the message readers over (stream, schedule) — C07, C08 *)
+Definition w_perr (e : perr) : list wtok :=
+  match e with
+  | EIncomplete None => [WN 1; WN 0]
+  | EIncomplete (Some n) => [WN 1; WN 1; WN n]
+  | EHickup => [WN 2]
+  | EUnrecoverable => [WN 3]
+  end.
+Definition w_outcome (o : outcome) : list wtok :=
+  match o with
+  | OMsg pm => WN 0 :: w_parsed pm
+  | OErr e => WN 1 :: w_perr e
+  | OPanic => [WN 9]
+  end.
+Definition cap_of (c : N) : N := if c =? 0 then default_cap else N.max c message_max_len.
+Definition r_reader_case : rd (bool * option filter_config * N * list N * list byte) :=
+  rlet sh := r_bool in rlet f := r_opt r_filter in rlet c := r_n in rlet sched := r_list r_n in
+  rlet s := r_bytes in rret (sh, f, c, sched, s).
+Definition op_read (ts : list wtok) : list wtok :=
+  run_rd r_reader_case ts (fun '(sh, f, c, sched, s) =>
+    let '(l, fin) := reader_run_cap (cap_of c) sched s (option_map process_filter f) sh in
+    w_list w_outcome l ++ w_bool fin).
+Definition op_async (ts : list wtok) : list wtok :=
+  run_rd r_reader_case ts (fun '(sh, f, c, sched, s) =>
+    let '(l, fin) := async_run_cap (cap_of c) sched s (option_map process_filter f) sh in
+    w_list w_outcome l ++ w_bool fin).
+
 Definition run_case (op : N) (ts : list wtok) : list wtok :=
   match op with
   | 1 => run_rd r_n ts (fun ms => w_chk w_ts (from_ms ms))
@@ -242,5 +269,7 @@ Definition run_case (op : N) (ts : list wtok) : list wtok :=
   | 28 => op_stable ts
   | 29 => op_streamj ts
   | 32 => op_stats ts
+  | 40 => op_read ts
+  | 41 => op_async ts
   | _ => [WN 998]
   end.
